@@ -43,7 +43,7 @@ from pulser.sampler import sample
 
 PROP = "C06"
 LEAN_TARGETS = ["PulserModel.Sampler", "Proofs.Sampler", "Properties.C06", "Driver.SeqRender", "pmdriver"]
-N_HIST = {"quick": 650, "thorough": 20000}
+N_HIST = {"quick": 650, "thorough": 10000}     # (thorough about 10 min)
 N_SLM = {"quick": 150, "thorough": 4000}
 TWO_PI = 2 * math.pi
 
